@@ -1,6 +1,6 @@
 SPECIFICATION Spec
 CONSTANTS
   MaxClauses = 3
-  Shapes = {"node", "step", "var", "chain"}
+  Shapes = {"node", "step", "var", "chain", "chain3"}
   Family = "random"
 CHECK_DEADLOCK FALSE
